@@ -52,25 +52,7 @@ func C19(r *core.Run) {
 	if _, err := os.Stat(wexec); err != nil {
 		wexec = filepath.Join(strings.TrimSpace(string(goroot)), "lib", "wasm", "wasm_exec_node.js")
 	}
-	run := exec.Command("node", wexec, out, r.Tier, fmt.Sprint(r.Seed))
-	var stdout, stderr bytes.Buffer
-	run.Stdout, run.Stderr = &stdout, &stderr
-	done := make(chan error, 1)
-	if err := run.Start(); err != nil {
-		r.Inconclusive("cannot start node: " + err.Error())
-		r.MinDistinct = 1 << 60
-		return
-	}
-	go func() { done <- run.Wait() }()
-	select {
-	case err = <-done:
-	case <-time.After(40 * time.Minute):
-		_ = run.Process.Kill()
-		r.Inconclusive("wasm program watchdog (40 min)")
-		r.MinDistinct = 1 << 60
-		return
-	}
-	var rep struct {
+	type report struct {
 		Evaluations int64            `json:"evaluations"`
 		Distinct    int64            `json:"distinct"`
 		Counters    map[string]int64 `json:"counters"`
@@ -80,25 +62,70 @@ func C19(r *core.Run) {
 			What string `json:"what"`
 		} `json:"violations"`
 	}
-	found := false
-	for _, line := range strings.Split(stdout.String(), "\n") {
-		if strings.HasPrefix(line, "WASMCHK-REPORT ") {
-			if e := json.Unmarshal([]byte(strings.TrimPrefix(line, "WASMCHK-REPORT ")), &rep); e == nil {
-				found = true
-			}
-		}
-	}
-	if !found {
-		all := stdout.String() + stderr.String()
-		if strings.Contains(all, "all goroutines are asleep") || strings.Contains(all, "panic:") || strings.Contains(all, "fatal error:") {
-			r.CaseN(1, 2)
-			r.Violate("wasm:crash", "the wasm program died: "+short(strings.TrimSpace(all), 1500), map[string]any{"output": all})
+	nparts := r.Pick(1, 16)
+	reps := make([]*report, nparts)
+	crash := make([]string, nparts)
+	incon := make([]string, nparts)
+	core.ParallelW(nparts, 8, func(part int) {
+		run := exec.Command("node", wexec, out, r.Tier, fmt.Sprint(r.Seed), fmt.Sprint(part), fmt.Sprint(nparts))
+		var stdout, stderr bytes.Buffer
+		run.Stdout, run.Stderr = &stdout, &stderr
+		done := make(chan error, 1)
+		if err := run.Start(); err != nil {
+			incon[part] = "cannot start node: " + err.Error()
 			return
 		}
-		r.Inconclusive(fmt.Sprintf("no report from the wasm program (err=%v): %s", err, short(all, 800)))
-		r.MinDistinct = 1 << 60
-		return
+		go func() { done <- run.Wait() }()
+		var err error
+		select {
+		case err = <-done:
+		case <-time.After(40 * time.Minute):
+			_ = run.Process.Kill()
+			incon[part] = "wasm program watchdog (40 min)"
+			return
+		}
+		for _, line := range strings.Split(stdout.String(), "\n") {
+			if strings.HasPrefix(line, "WASMCHK-REPORT ") {
+				var rp report
+				if e := json.Unmarshal([]byte(strings.TrimPrefix(line, "WASMCHK-REPORT ")), &rp); e == nil {
+					reps[part] = &rp
+				}
+			}
+		}
+		if reps[part] == nil {
+			all := stdout.String() + stderr.String()
+			if strings.Contains(all, "out of memory") {
+				incon[part] = "the wasm program ran out of memory: " + short(strings.TrimSpace(all), 300)
+			} else if strings.Contains(all, "all goroutines are asleep") || strings.Contains(all, "panic:") || strings.Contains(all, "fatal error:") {
+				crash[part] = all
+			} else {
+				incon[part] = fmt.Sprintf("no report from the wasm program (err=%v): %s", err, short(all, 800))
+			}
+		}
+	})
+	var rep report
+	rep.Counters = map[string]int64{}
+	for part := 0; part < nparts; part++ {
+		if crash[part] != "" {
+			r.CaseN(1, 2)
+			r.Violate("wasm:crash", "the wasm program died: "+short(strings.TrimSpace(crash[part]), 1500), map[string]any{"output": crash[part], "part": part})
+			return
+		}
+		if incon[part] != "" {
+			r.Inconclusive(incon[part])
+			r.MinDistinct = 1 << 60
+			return
+		}
+		rp := reps[part]
+		rep.Evaluations += rp.Evaluations
+		rep.Distinct += rp.Distinct
+		for k, v := range rp.Counters {
+			rep.Counters[k] += v
+		}
+		rep.Samples = append(rep.Samples, rp.Samples...)
+		rep.Violations = append(rep.Violations, rp.Violations...)
 	}
+	r.Set("wasm_processes", nparts)
 	r.CaseN(rep.Evaluations, rep.Distinct)
 	for k, v := range rep.Counters {
 		r.Count(k, v)
